@@ -327,6 +327,10 @@ func (fc *FuncCtx) framePermits(st *State, key, ref string) string {
 		if m.all {
 			return "true"
 		}
+		if m.pred != nil {
+			alts = append(alts, m.pred(ref))
+			continue
+		}
 		alts = append(alts, eq(ref, m.ref))
 	}
 	return or(alts...)
@@ -340,6 +344,9 @@ type modTarget struct {
 	isMap bool
 	ghost string
 	elems string // parameter name for elems(p)
+	// pred, when set, makes this a "maps(m map[K]V | P(m))" target: every map object m of that type for
+	// which P holds (evaluated in the pre-state) may be modified; all others keep their contents
+	pred func(ref string) string
 }
 
 // modTargets evaluates the modifies clause of a contract.  For the function
@@ -389,6 +396,43 @@ func (fc *FuncCtx) modTargets(c *Contract, st *State, old *State, names map[stri
 			}
 			ssh := e.shapeOf(env.resolveGoType(inner[:k]))
 			out = append(out, fc.fieldTargets(ssh, inner[k+1:], "", true)...)
+		case strings.HasPrefix(m, "maps(") && strings.HasSuffix(m, ")"):
+			// maps(m map[K]V | P(m))
+			inner := m[5 : len(m)-1]
+			bar := strings.Index(inner, "|")
+			hd := strings.Fields(strings.TrimSpace(inner[:max(bar, 0)]))
+			if bar < 0 || len(hd) != 2 {
+				specFail("modifies maps(m map[K]V | P(m)) expected: %q", m)
+			}
+			ex, err := parseSpec(inner[bar+1:])
+			if err != nil {
+				specFail("%v", err)
+			}
+			tenv := &SpecEnv{e: e, st: st, cf: c.CF, pkg: e.pkgForCF(c.CF)}
+			if tenv.pkg == nil {
+				tenv.pkg = fc.pkg
+			}
+			msh := e.shapeOf(tenv.resolveGoTypeFull(hd[1]))
+			if msh.Kind != KMapRef {
+				specFail("modifies maps(...): %s is not a map type", hd[1])
+			}
+			bound := hd[0]
+			pred := func(ref string) string {
+				env := fc.calleeOrSelfEnv(c, st, old, names, pos)
+				nm := map[string]*Value{}
+				for k, v := range env.names {
+					nm[k] = v
+				}
+				nm[bound] = scalar(msh, ref)
+				env.names = nm
+				return env.evalBool(ex)
+			}
+			dk, dsh := e.mapDomKey(msh)
+			out = append(out, modTarget{key: dk, sh: dsh, pred: pred})
+			if e.nLeaves(msh.Elem()) > 0 {
+				vk, vsh := e.mapValKey(msh)
+				out = append(out, modTarget{key: vk, sh: vsh, pred: pred})
+			}
 		case strings.HasPrefix(m, "map(") && strings.HasSuffix(m, ")"):
 			ex, err := parseSpec(m[4 : len(m)-1])
 			if err != nil {
